@@ -97,14 +97,15 @@ func parseRace(blk string) raceReport {
 		if sec < 0 || sec > 1 || r.Funcs[sec] != "" {
 			continue
 		}
-		// function line: "  pkg.func()" followed by "      file:line +0x.."
+		// function line: "  pkg.func()" followed by "      file:line +0x..". The
+		// frame a report is attributed to is the first one, from the access
+		// outwards, that belongs to yaegi or to the harness: a race inside strconv
+		// on arguments handed over by callBin is yaegi's.
 		if strings.HasPrefix(l, "  ") && !strings.HasPrefix(l, "      ") && strings.HasSuffix(tl, ")") {
 			fn := tl[:strings.LastIndex(tl, "(")]
-			if strings.HasPrefix(fn, "runtime.") || strings.HasPrefix(fn, "reflect.") || strings.HasPrefix(fn, "sync.") ||
-				strings.HasPrefix(fn, "sync/atomic.") || strings.HasPrefix(fn, "internal/") || strings.HasPrefix(fn, "testing.") {
-				continue
+			if strings.Contains(fn, "github.com/traefik/yaegi/") || strings.HasPrefix(fn, "verif/") {
+				r.Funcs[sec] = fn
 			}
-			r.Funcs[sec] = fn
 		}
 	}
 	y0 := strings.Contains(r.Funcs[0], "github.com/traefik/yaegi/")
